@@ -394,7 +394,7 @@ theorem relink_cycle (n : Nat) (r : Rec) (t0 : Nat) (segs : List (List Nat)) (R 
     (hsel : ∀ S ∈ segs, S.headD t0 ∈ rn ∧ ∀ z ∈ S.tail, z ∉ rn)
     (hrn : ∀ v, R.head? = some v → v ∈ rn) :
     (t0 :: newTail segs R).Perm (List.range n) ∧
-    CycleOf (koptLoop (pred n r) rn (n - 2) t0 rec0) (t0 :: newTail segs R) := by
+    CycleOf (koptLoop (argsort n r) rn (n - 2) t0 rec0) (t0 :: newTail segs R) := by
   have hnd : (t0 :: (segs.flatten ++ R)).Nodup := hperm.nodup_iff.mpr List.nodup_range
   have hmem : ∀ z, z ∈ t0 :: (segs.flatten ++ R) ↔ z < n := fun z => hperm.mem_iff.trans List.mem_range
   have hpermN : (t0 :: newTail segs R).Perm (List.range n) := by
@@ -406,10 +406,10 @@ theorem relink_cycle (n : Nat) (r : Rec) (t0 : Nat) (segs : List (List Nat)) (R 
   have hl : Linked r (segs.flatten ++ R ++ [t0]) := by
     rw [cycleOf_cons] at hcyc
     exact linked_suffix r [t0] _ (by simpa using hcyc)
-  have hp : ∀ x ∈ segs.flatten ++ R, pred n r (r x) = x := by
+  have hp : ∀ x ∈ segs.flatten ++ R, argsort n r (r x) = x := by
     intro x hx
-    exact pred_of_cycle n r _ hperm hcyc x (r x) ((hmem x).mp (List.mem_cons_of_mem _ hx)) rfl
-  have htri := chainOK (pred n r) rn rec0 r t0 segs R t0 hne hnd hl hp hlk hrec0 hsel hrn
+    exact argsort_of_cycle n r _ hperm hcyc x (r x) ((hmem x).mp (List.mem_cons_of_mem _ hx)) rfl
+  have htri := chainOK (argsort n r) rn rec0 r t0 segs R t0 hne hnd hl hp hlk hrec0 hsel hrn
   have hfirst := links_first rec0 t0 t0 segs R hlk hne
   have hclose := closing rec0 r t0 segs R t0 hne hlk hrec0
     (linked_suffix r segs.flatten (R ++ [t0]) (by simpa using hl))
@@ -418,7 +418,7 @@ theorem relink_cycle (n : Nat) (r : Rec) (t0 : Nat) (segs : List (List Nat)) (R 
     rw [hN] at hlenN hfirst
     have hn1 : n = 1 := by simpa using hlenN.symm
     subst hn1
-    show CycleOf (koptLoop (pred 1 r) rn 0 t0 rec0) [t0]
+    show CycleOf (koptLoop (argsort 1 r) rn 0 t0 rec0) [t0]
     simp only [koptLoop]
     have : rec0 t0 = t0 := by simpa using hfirst.symm
     simp [CycleOf, Linked, this]
@@ -427,7 +427,7 @@ theorem relink_cycle (n : Nat) (r : Rec) (t0 : Nat) (segs : List (List Nat)) (R 
     have hv : rec0 t0 = v := by simpa using hfirst.symm
     have hQ : Q.length = n - 2 := by simp at hlenN; omega
     rw [← hQ]
-    obtain ⟨h1, h2⟩ := koptLoop_chain (pred n r) rn rec0 Q t0 v rec0 hndN hv (fun z _ => rfl) htri
+    obtain ⟨h1, h2⟩ := koptLoop_chain (argsort n r) rn rec0 Q t0 v rec0 hndN hv (fun z _ => rfl) htri
     obtain ⟨N', l, hNl⟩ : ∃ N' l, t0 :: v :: Q = N' ++ [l] := by
       rcases List.eq_nil_or_concat (t0 :: v :: Q) with h | ⟨N', l, h⟩
       · simp at h
@@ -441,7 +441,7 @@ theorem relink_cycle (n : Nat) (r : Rec) (t0 : Nat) (segs : List (List Nat)) (R 
       rw [hNl] at hndN
       have := List.nodup_append.mp hndN
       exact this.2.2 l h4 l (by simp) rfl
-    have hres_l : koptLoop (pred n r) rn Q.length t0 rec0 l = t0 := by
+    have hres_l : koptLoop (argsort n r) rn Q.length t0 rec0 l = t0 := by
       rw [h2 l hl_notin]; exact hclose l hlast
     rw [cycleOf_cons]
     have e : t0 :: v :: Q ++ [t0] = N' ++ l :: [t0] := by
